@@ -22,6 +22,7 @@ struct C02Plan
   C02Item items[C02_MAXITEMS];
   int burst;           // additional scheduled closures in one burst
   int interleave;      // 1: create all items first, then run the consumer scripts round-robin
+  int reinit_threads;  // >0: initTaskingSystem(n) again while tasks may still be queued or running
 };
 extern "C" {
 const C02Plan *c02_plan();
